@@ -792,6 +792,10 @@ def judge_mboot(sess: MbootSession, op, out: Outcome, j0: int, loose0: int, peek
         if out.exc is None and out.ret is True:
             if delta != op["data"]:
                 v.append((f"mboot-{tr}-load_image-data-not-delivered-intact", dict(base, arrived=len(delta), sent=len(op["data"]))))
+            elif out.status != 0:
+                # the call has no device status of its own: after a delivered image the status a caller (blhost) reads must
+                # be success, not what an internal query left behind
+                v.append(("mboot-load_image-delivered-but-status_code-reports-failure", dict(base, status_code=out.status)))
             return "ok", v
         v.append((f"mboot-{tr}-load_image-failure-on-clean-link", base))
         return "failed", v
@@ -1732,6 +1736,13 @@ def _directed_mboot(ctx):
     ram = MD.MbootCore.RAM_BASE
     for tr in ("usb", "uart"):
         for exc in (False, True):
+            # a device without the max-packet-size property: the very first data phase of a fresh McuBoot object
+            cfg = {"transport": tr, "mps": 32, "cmd_exception": exc, "dev_seed": 9, "pad": "zeros", "ping_dummy": "", "has_mps_prop": False}
+            for first in ("load_image", "write"):
+                op = {"op": first, "data": bytes(range(200)) + bytes(100)}
+                if first == "write":
+                    op.update({"addr": ram + 0x40, "mem": 0})
+                run_mboot_history(ctx, cfg, [op, dict(op)], family="directed-no-packet-size-property")
             cfg = {"transport": tr, "mps": 32, "cmd_exception": exc, "dev_seed": 7, "pad": "zeros", "ping_dummy": "", "has_mps_prop": True}
             ops = [{"op": "read", "addr": ram + 0x100, "len": 70, "mem": 0}]
             # the device delivers 6 bytes fewer than its ReadMemory response announced and closes with SUCCESS
